@@ -324,6 +324,16 @@ impl<Id: InternId> InternTable<Id, Id::Intern> {
     }
 }
 
+#[cfg(isographlabs_isograph_verif_loom)]
+impl<Id: InternId> InternTable<Id, Id::Intern> {
+    /// Verification hook: allocate the shards and register every lazily created loom object
+    /// from the calling thread.
+    pub fn verif_force_init(&'static self) {
+        let _ = self.shards();
+        self.arena.verif_force_init();
+    }
+}
+
 impl<Id, Type> Debug for InternTable<Id, Type> {
     fn fmt(&self, f: &mut fmt::Formatter<'_>) -> fmt::Result {
         write!(f, "InternTable[{} entries]", self.len())
